@@ -11,6 +11,7 @@ import (
 	"sync"
 
 	"verif/mc"
+	"verif/ref"
 	"verif/tree"
 
 	cm "zombiezen.com/go/commonmark"
@@ -49,7 +50,18 @@ type coSched struct {
 	allDone    chan struct{}
 	preempts   []int // point ids at which a preemption happened
 	points     int   // scheduling points offered
+	steps      int   // instrumented statements executed by all threads
+	streak     int   // consecutive "blocked" reports with no statement in between
+	abort      string // non-empty: the execution is being torn down (deadlock, no progress)
 }
+
+// coAbort unwinds a harness thread when the execution is torn down.
+type coAbort struct{}
+
+// c19Horizon bounds the statements of one execution: sequential executions of
+// the harness bodies take about 10^4; a thread that spins on a condition only
+// another thread can establish never ends under a cooperative scheduler.
+const c19Horizon = 5_000_000
 
 type pointInfo struct {
 	ID     int    `json:"id"`
@@ -95,6 +107,19 @@ func (s *coSched) others() []int {
 
 // point is installed as cm.VerifPoint while the threads run.
 func (s *coSched) point(id int) {
+	if s.abort != "" {
+		panic(coAbort{})
+	}
+	if id < 0 {
+		s.blocked()
+		return
+	}
+	s.streak = 0
+	s.steps++
+	if s.steps > c19Horizon {
+		s.abort = fmt.Sprintf("no progress: more than %d statements executed without all threads ending", c19Horizon)
+		panic(coAbort{})
+	}
 	if s.coarseOnly {
 		// Coarse granularity: the first time a thread enters each function.
 		if id >= len(s.info.pts) || !s.info.pts[id].Entry {
@@ -119,10 +144,39 @@ func (s *coSched) point(id int) {
 		return
 	}
 	s.preempts = append(s.preempts, id)
+	s.switchTo(en[c-1])
+}
+
+func (s *coSched) switchTo(next int) {
 	me := s.cur
-	s.cur = en[c-1]
-	s.threads[s.cur].resume <- struct{}{}
+	s.cur = next
+	s.threads[next].resume <- struct{}{}
 	<-s.threads[me].resume
+	if s.abort != "" {
+		panic(coAbort{})
+	}
+}
+
+// blocked is reached through the sync stand-in (hooks/verifsync) when the
+// running thread cannot take a lock: control goes to the next live thread in
+// cyclic order (not a preemption: the thread cannot run). If every live thread
+// reports blocked in turn without any statement being executed in between,
+// nobody can ever release anything: deadlock.
+func (s *coSched) blocked() {
+	s.streak++
+	en := s.others()
+	if len(en) == 0 || s.streak > 2*len(s.threads) {
+		s.abort = "deadlock: every live thread is blocked on a lock"
+		panic(coAbort{})
+	}
+	next := en[0]
+	for _, i := range en {
+		if i > s.cur {
+			next = i
+			break
+		}
+	}
+	s.switchTo(next)
 }
 
 func (s *coSched) finish(i int) {
@@ -133,7 +187,7 @@ func (s *coSched) finish(i int) {
 		return
 	}
 	c := 0
-	if len(en) > 1 {
+	if len(en) > 1 && s.abort == "" {
 		c = s.x.ChooseFree(len(en)) // not a preemption: the running thread ended
 	}
 	s.cur = en[c]
@@ -153,7 +207,9 @@ func (s *coSched) run(fns []func()) {
 			<-t.resume
 			defer func() {
 				if r := recover(); r != nil {
-					if fe, ok := r.(*mc.FrameworkError); ok {
+					if _, ok := r.(coAbort); ok {
+						// torn down
+					} else if fe, ok := r.(*mc.FrameworkError); ok {
 						t.panicVal = fe
 					} else {
 						t.panicVal = r
@@ -178,6 +234,8 @@ func (s *coSched) run(fns []func()) {
 const (
 	c19DocA      = "*x* [a]\n\n[a]: /u\n"
 	c19DocB      = "> <B>\x00`c`&amp;\n"
+	c19DocC      = "1. &copy;\n<http://a.b>\n"
+	c19DocD      = "~~~x\nb\n~~~\n<div>\n"
 	c19SharedDoc = "- *a* <SCRIPT>b</SCRIPT>\n\n[l](/u \"t\") <Xmp>\n"
 )
 
@@ -215,6 +273,8 @@ func parseOp(name, doc string) c19Op {
 var c19Ops = []c19Op{
 	parseOp("ParseA", c19DocA),
 	parseOp("ParseB", c19DocB),
+	parseOp("ParseC", c19DocC),
+	parseOp("ParseD", c19DocD),
 	{"RenderShared", func(sh *c19Shared) (func(), func() string) {
 		var out string
 		return func() { out, _ = renderHTML(sh.renderer, sh.blocks) }, func() string { return out }
@@ -284,7 +344,7 @@ func c19SeqResult(op int) string {
 func init() {
 	register(&Check{
 		ID:   "C19",
-		Rule: "part 1: for every multiset of 2 (thorough: also 3) operations from {Parse(A), Parse(B), Render through one shared HTMLRenderer, Render through two own renderers, Format, Walk} on one shared pre-parsed tree, every schedule with at most p preemptions, where a scheduling point is every instrumented statement (fine) or the first entry of each thread into each function (coarse): bound 1 fine and bound 2 coarse (quick), bound 2 fine for pairs, bound 3 coarse, and triples at bound 1 fine / 2 coarse (thorough); non-trivial = the schedule contains at least one preemption; part 2: the same operation pairs as free-running goroutines released by a barrier in a -race build, repeated; any race report is a violation",
+		Rule: "part 1: for every multiset of 2 (thorough: also 3) operations from {Parse(A), Parse(B), Parse(C), Parse(D), Render through one shared HTMLRenderer, Render through two own renderers, Format, Walk} on one shared pre-parsed tree, every schedule with at most p preemptions, where a scheduling point is every instrumented statement (fine) or the first entry of each thread into each function (coarse): bound 1 fine and bound 2 coarse (quick), bound 2 fine for pairs, bound 3 coarse, and triples at bound 1 fine / 2 coarse (thorough); non-trivial = the schedule contains at least one preemption; part 2: in a -race build, every operation pair as free-running goroutines released by a barrier, one fresh process per pair (so the first run meets every lazily built table or cache cold), repeated; and the 652 spec examples parsed/rendered/formatted/walked by 2 and by 8 goroutines at once and then each tree rendered (one shared renderer, twice), formatted and walked concurrently; any race report or result differing from the sequential one is a violation",
 		Assumptions: []string{
 			"interleavings are decided at statement granularity; Go's memory model below that and paths the harness bodies do not execute are outside part 1",
 			"the data-race clause is decided by the race detector in a separate free-running pass (cooperative hand-offs are happens-before edges that would blind it); it is not an enumeration of schedules",
@@ -342,6 +402,14 @@ func c19Driver(x *X, info *pointTable, combo []int, coarse bool) {
 	x.Validated()
 	in := []byte(cfg)
 	sched := fmt.Sprintf("preemptions at %s", describePoints(info, s.preempts))
+	if s.abort != "" {
+		kind := "deadlock"
+		if strings.HasPrefix(s.abort, "no progress") {
+			kind = "no-progress"
+		}
+		x.Fail(kind, cfg, in, "%s; %s", s.abort, sched)
+		return
+	}
 	for i, t := range s.threads {
 		if t.panicVal != nil {
 			if fe, ok := t.panicVal.(*mc.FrameworkError); ok {
@@ -400,72 +468,198 @@ func describePoints(info *pointTable, ids []int) string {
 
 // ---- part 2: free-running race pass ------------------------------------------
 
-// RacePass runs every operation pair as free-running goroutines released by a
-// barrier, reps times. It is meant to run in the -race flavour of the binary;
-// a race makes the runtime print a report and exit with GORACE's exit code.
-func RacePass(reps int) (pairs, runs int, mismatch string) {
-	combos := c19Combos(2)
+// RacePair runs one operation pair as free-running goroutines released by a
+// barrier, reps times, in this (fresh) process: the first run meets every
+// lazily initialised table, cache or pool cold, which is where unsynchronised
+// first-use initialisation shows. Sequential results are only computed
+// afterwards. Meant for the -race flavour of the binary; a race makes the
+// runtime print a report and exit with GORACE's exit code.
+func RacePair(a, b, reps int) (runs int, mismatch string) {
+	combo := []int{a, b}
+	var got [][]string
 	for r := 0; r < reps; r++ {
-		for _, combo := range combos {
-			sh := newC19Shared()
-			var wg sync.WaitGroup
-			start := make(chan struct{})
-			results := make([]func() string, len(combo))
-			for i, oi := range combo {
-				body, res := c19Ops[oi].mk(sh)
-				results[i] = res
-				wg.Add(1)
-				go func() {
-					defer wg.Done()
-					<-start
-					body()
-				}()
-			}
-			close(start)
-			wg.Wait()
-			runs++
-			for i, oi := range combo {
-				if got, want := results[i](), c19SeqResult(oi); got != want && mismatch == "" {
-					mismatch = fmt.Sprintf("%s||%s: thread %d produced %q, sequentially %q", c19Ops[combo[0]].name, c19Ops[combo[1]].name, i, got, want)
-				}
+		sh := newC19Shared()
+		var wg sync.WaitGroup
+		start := make(chan struct{})
+		results := make([]func() string, len(combo))
+		for i, oi := range combo {
+			body, res := c19Ops[oi].mk(sh)
+			results[i] = res
+			wg.Add(1)
+			go func() {
+				defer wg.Done()
+				<-start
+				body()
+			}()
+		}
+		close(start)
+		wg.Wait()
+		runs++
+		row := make([]string, len(combo))
+		for i := range combo {
+			row[i] = results[i]()
+		}
+		got = append(got, row)
+	}
+	for _, row := range got {
+		for i, oi := range combo {
+			if want := c19SeqResult(oi); row[i] != want && mismatch == "" {
+				mismatch = fmt.Sprintf("%s||%s: thread %d produced %q, sequentially %q", c19Ops[a].name, c19Ops[b].name, i, row[i], want)
 			}
 		}
 	}
-	return len(combos), runs, mismatch
+	return runs, mismatch
 }
 
-// c19RacePass is the orchestrator-side hook: it runs the race flavour.
+// RaceCorpus is the wide net of part 2: in a fresh process, g goroutines parse,
+// render, format and walk disjoint slices of the CommonMark spec examples at
+// the same time (cold start, every construct of the language on some path);
+// then every parsed tree is rendered through one shared renderer by two
+// goroutines, formatted and walked by two more, all at once. Afterwards
+// everything is recomputed sequentially and compared.
+func RaceCorpus(g int) (docs int, mismatch string) {
+	exs := ref.SpecExamples()
+	docs = len(exs)
+	type res struct {
+		blocks      []*cm.RootBlock
+		refs        cm.ReferenceMap
+		html, fmted string
+	}
+	all := make([]res, len(exs))
+	one := func(md string) res {
+		blocks, refs := cm.Parse([]byte(md))
+		h, _ := renderHTML(&cm.HTMLRenderer{ReferenceMap: refs, FilterTag: cm.FilterTagGFM}, blocks)
+		var fb bytes.Buffer
+		format.Format(&fb, blocks)
+		for _, b := range blocks {
+			cm.Walk(b.AsNode(), &cm.WalkOptions{Pre: func(*cm.Cursor) bool { return true }})
+		}
+		return res{blocks, refs, h, fb.String()}
+	}
+	var wg sync.WaitGroup
+	start := make(chan struct{})
+	for w := 0; w < g; w++ {
+		wg.Add(1)
+		go func() {
+			defer wg.Done()
+			<-start
+			for i := w; i < len(exs); i += g {
+				all[i] = one(exs[i].Markdown)
+			}
+		}()
+	}
+	close(start)
+	wg.Wait()
+	note := func(format string, args ...any) {
+		if mismatch == "" {
+			mismatch = fmt.Sprintf(format, args...)
+		}
+	}
+	// Shared trees.
+	for i := range all {
+		r := &cm.HTMLRenderer{ReferenceMap: all[i].refs, FilterTag: cm.FilterTagGFM}
+		var out [2]string
+		var fm string
+		var wg sync.WaitGroup
+		start := make(chan struct{})
+		run := func(f func()) {
+			wg.Add(1)
+			go func() { defer wg.Done(); <-start; f() }()
+		}
+		run(func() { out[0], _ = renderHTML(r, all[i].blocks) })
+		run(func() { out[1], _ = renderHTML(r, all[i].blocks) })
+		run(func() { var fb bytes.Buffer; format.Format(&fb, all[i].blocks); fm = fb.String() })
+		run(func() {
+			for _, b := range all[i].blocks {
+				cm.Walk(b.AsNode(), &cm.WalkOptions{Post: func(*cm.Cursor) bool { return true }})
+			}
+		})
+		close(start)
+		wg.Wait()
+		if out[0] != all[i].html || out[1] != all[i].html || fm != all[i].fmted {
+			note("spec example %d: concurrent render/format of the shared tree differs from the first result", exs[i].Example)
+		}
+	}
+	// Sequential recomputation.
+	for i := range exs {
+		s := one(exs[i].Markdown)
+		if s.html != all[i].html || s.fmted != all[i].fmted || tree.Dump(s.blocks, s.refs, tree.Full) != tree.Dump(all[i].blocks, all[i].refs, tree.Full) {
+			note("spec example %d (%q): result under concurrency differs from the sequential result", exs[i].Example, exs[i].Markdown)
+		}
+	}
+	return docs, mismatch
+}
+
+// c19RacePass is the orchestrator-side hook: it runs the race flavour, one
+// fresh process per operation pair and one for the corpus.
 func c19RacePass(verifDir, tier string) (map[string]any, []Violation, error) {
 	bin := os.Getenv("VERIF_RACE_BIN")
 	if bin == "" {
 		return nil, nil, fmt.Errorf("VERIF_RACE_BIN is not set (./run builds the -race flavour)")
 	}
-	reps := "20"
+	reps := "10"
 	if tier == "thorough" {
-		reps = "200"
+		reps = "100"
 	}
-	cmd := exec.Command(bin, "racepass", reps)
-	cmd.Env = append(os.Environ(), "GORACE=halt_on_error=1 exitcode=66", "GOMAXPROCS=8")
-	var out bytes.Buffer
-	cmd.Stdout, cmd.Stderr = &out, &out
-	err := cmd.Run()
-	text := out.String()
-	ev := map[string]any{"race_pass_command": "verif-race racepass " + reps, "race_pass_output_tail": truncate(lastLines(text, 3), 400)}
-	if err == nil {
-		return ev, nil, nil
+	type job struct {
+		args []string
+		out  string
+		err  error
 	}
-	if ee, ok := err.(*exec.ExitError); ok && (ee.ExitCode() == 66 || ee.ExitCode() == 1) {
+	var jobs []*job
+	for _, combo := range c19Combos(2) {
+		jobs = append(jobs, &job{args: []string{"racepair", fmt.Sprint(combo[0]), fmt.Sprint(combo[1]), reps}})
+	}
+	for _, g := range []string{"2", "8"} {
+		jobs = append(jobs, &job{args: []string{"racecorpus", g}})
+	}
+	sem := make(chan struct{}, 8)
+	var wg sync.WaitGroup
+	for _, j := range jobs {
+		wg.Add(1)
+		go func() {
+			defer wg.Done()
+			sem <- struct{}{}
+			defer func() { <-sem }()
+			cmd := exec.Command(bin, j.args...)
+			cmd.Env = append(os.Environ(), "GORACE=halt_on_error=1 exitcode=66", "GOMAXPROCS=4")
+			var out bytes.Buffer
+			cmd.Stdout, cmd.Stderr = &out, &out
+			j.err = cmd.Run()
+			j.out = out.String()
+		}()
+	}
+	wg.Wait()
+	ev := map[string]any{
+		"race_pass_processes": len(jobs),
+		"race_pass_commands":  fmt.Sprintf("verif-race racepair <i> <j> %s (one fresh process per operation pair, %d pairs); verif-race racecorpus 2|8 (spec examples)", reps, len(jobs)-2),
+	}
+	var tails []string
+	var viol []Violation
+	for _, j := range jobs {
+		tails = append(tails, lastLines(j.out, 1))
+		if j.err == nil {
+			continue
+		}
+		ee, ok := j.err.(*exec.ExitError)
+		if !ok || (ee.ExitCode() != 66 && ee.ExitCode() != 1) {
+			return ev, nil, fmt.Errorf("race pass %v failed to run: %v\n%s", j.args, j.err, truncate(j.out, 2000))
+		}
 		kind := "data-race"
 		if ee.ExitCode() == 1 {
 			kind = "free-running-result-differs"
 		}
 		dir := filepath.Join(verifDir, "replays", "C19")
 		os.MkdirAll(dir, 0o755)
-		path := filepath.Join(dir, fmt.Sprintf("race-%016x.txt", fnv(text)))
+		text := "command: verif-race " + strings.Join(j.args, " ") + "\n" + j.out
+		path := filepath.Join(dir, fmt.Sprintf("race-%016x.txt", fnv(strings.Join(j.args, " ")+kind)))
 		os.WriteFile(path, []byte(text), 0o644)
-		return ev, []Violation{{Property: "C19", Exploration: "race-pass", Kind: kind, Message: truncate(text, 3000), Replay: path, InputQuoted: "(operation pairs, free-running)", Confirmed: 1}}, nil
+		if len(viol) < 10 {
+			viol = append(viol, Violation{Property: "C19", Exploration: "race-pass", Kind: kind, Config: strings.Join(j.args, " "), Message: truncate(text, 3000), Replay: path, InputQuoted: "(free-running goroutines, " + strings.Join(j.args, " ") + ")", Confirmed: 1})
+		}
 	}
-	return ev, nil, fmt.Errorf("race pass failed to run: %v\n%s", err, truncate(text, 2000))
+	ev["race_pass_output_tail"] = truncate(strings.Join(tails[len(tails)-3:], " | "), 600)
+	return ev, viol, nil
 }
 
 func lastLines(s string, n int) string {
